@@ -17,6 +17,15 @@
 (*                                                                         *)
 (* Tokens: "a", "b" operands, "o" a binary operator, "X" an illegal        *)
 (* character.  Grammar: operand (o operand)*.                              *)
+(*                                                                         *)
+(* Process-wide settings.  Token "B" is a numeral longer than the          *)
+(* interpreter's conversion limit: it lexes as an operand only while the   *)
+(* process-wide limit is lifted, else it is a lexical error.  Toggle =     *)
+(* TRUE models an engine that lifts the limit for the duration of each     *)
+(* parse call and puts the saved value back afterwards: TLC shows that two *)
+(* overlapping parses then break Isolation (the first one to finish        *)
+(* restores the limit under the other one's feet) - the code under test    *)
+(* does not touch process-wide state (Toggle = FALSE).                     *)
 (***************************************************************************)
 EXTENDS Naturals, Sequences, FiniteSets, TLC
 
@@ -28,6 +37,7 @@ CONSTANTS
 
 Parses == 1..NP
 EngineLexer == 0
+Toggle == FALSE        \* (a definition, overridden by the negative model-checking job)
 
 VARIABLES
     text,      \* text[p]: index into Texts of the text parse p was asked to parse
@@ -36,11 +46,13 @@ VARIABLES
     pc,        \* "idle" | "run" | "done"
     seen,      \* tokens parse p has fetched (with "END")
     result,    \* outcome of parse p once done
-    sched      \* history: which parse took each step
+    sched,     \* history: which parse took each step
+    glob,      \* the process-wide conversion limit: "limited" | "lifted"
+    saved      \* saved[p]: what parse p found in glob when it started (Toggle only)
 
-vars == <<text, lexers, lexerOf, pc, seen, result, sched>>
+vars == <<text, lexers, lexerOf, pc, seen, result, sched, glob, saved>>
 
-Operand(t) == t \in {"a", "b"}
+Operand(t) == t \in {"a", "b", "B"}
 
 \* viable-prefix check of the LR parser: would token t be accepted after the tokens s?
 Accepts(s, t) ==
@@ -50,16 +62,19 @@ Accepts(s, t) ==
 
 NoResult == [kind |-> "none", toks |-> <<>>, tok |-> "", pos |-> 0, data |-> <<>>]
 
-\* what a lexer returns at its cursor
-Lex(lx) == IF lx.pos >= Len(lx.data) THEN "END"
-           ELSE IF lx.data[lx.pos + 1] = "X" THEN "LEXERR"
-           ELSE lx.data[lx.pos + 1]
+\* what a lexer returns at its cursor, under the process-wide setting g
+Lex(lx, g) == IF lx.pos >= Len(lx.data) THEN "END"
+              ELSE IF lx.data[lx.pos + 1] = "X" THEN "LEXERR"
+              ELSE IF lx.data[lx.pos + 1] = "B" /\ g = "limited" THEN "LEXERR"
+              ELSE lx.data[lx.pos + 1]
+\* the character a lexical error complains about
+Bad(lx) == lx.data[lx.pos + 1]
 
 \* the result the same text gives on a fresh engine (sequential run of the machine below)
 RECURSIVE FreshRun(_, _, _)
 FreshRun(data, pos, s) ==
-    LET t == Lex([data |-> data, pos |-> pos])
-    IN IF t = "LEXERR" THEN [kind |-> "lex", toks |-> s, tok |-> "X", pos |-> pos, data |-> <<>>]
+    LET t == Lex([data |-> data, pos |-> pos], IF Toggle THEN "lifted" ELSE "limited")     \* alone, a toggling engine has the limit lifted
+    IN IF t = "LEXERR" THEN [kind |-> "lex", toks |-> s, tok |-> data[pos + 1], pos |-> pos, data |-> <<>>]
        ELSE IF ~Accepts(s, t)
             THEN IF t = "END" THEN [kind |-> "gram", toks |-> s, tok |-> "END", pos |-> 0, data |-> <<>>]
                  ELSE [kind |-> "gram", toks |-> s, tok |-> t, pos |-> pos, data |-> data]
@@ -75,6 +90,8 @@ Init ==
     /\ seen = [p \in Parses |-> <<>>]
     /\ result = [p \in Parses |-> NoResult]
     /\ sched = <<>>
+    /\ glob = "limited"
+    /\ saved = [p \in Parses |-> "limited"]
 
 \* YaqlEngine.__call__ up to and including lexer.input(text): pick the lexer, load the text
 Begin(p) ==
@@ -86,6 +103,7 @@ Begin(p) ==
                           IF l = lx THEN [data |-> Texts[text[p]], pos |-> 0] ELSE lexers[l]]
     /\ pc' = [pc EXCEPT ![p] = "run"]
     /\ sched' = Append(sched, p)
+    /\ IF Toggle THEN saved' = [saved EXCEPT ![p] = glob] /\ glob' = "lifted" ELSE UNCHANGED <<glob, saved>>
     /\ UNCHANGED <<text, seen, result>>
 
 \* one call of Lexer.token() by parse p, and the parser's reaction to the token
@@ -93,10 +111,10 @@ Fetch(p) ==
     /\ pc[p] = "run"
     /\ LET l  == lexerOf[p]
            lx == lexers[l]
-           t  == Lex(lx)
+           t  == Lex(lx, glob)
            s  == seen[p]
        IN IF t = "LEXERR"
-          THEN /\ result' = [result EXCEPT ![p] = [kind |-> "lex", toks |-> s, tok |-> "X", pos |-> lx.pos, data |-> <<>>]]
+          THEN /\ result' = [result EXCEPT ![p] = [kind |-> "lex", toks |-> s, tok |-> Bad(lx), pos |-> lx.pos, data |-> <<>>]]
                /\ pc' = [pc EXCEPT ![p] = "done"]
                /\ UNCHANGED <<lexers, seen>>
           ELSE IF ~Accepts(s, t)
@@ -114,6 +132,8 @@ Fetch(p) ==
                /\ lexers' = [lexers EXCEPT ![l].pos = @ + 1]
                /\ UNCHANGED <<pc, result>>
     /\ sched' = Append(sched, p)
+    \* the parse call returns (or raises) in this step: a toggling engine puts back what it saved
+    /\ IF Toggle /\ pc'[p] = "done" THEN glob' = saved[p] /\ UNCHANGED saved ELSE UNCHANGED <<glob, saved>>
     /\ UNCHANGED <<text, lexerOf>>
 
 Next == \E p \in Parses : Begin(p) \/ Fetch(p)
@@ -140,5 +160,8 @@ NoSharedLexer ==
 (* Lemma checked by TLC: under the discipline the property holds. *)
 DisciplineImpliesIsolation == NoSharedLexer => (Isolation /\ OwnTokens)
 
-SchedView == <<text, lexers, lexerOf, pc, seen, result>>
+(* Process-wide state is as the parses found it once all of them are done. *)
+ProcessStateRestored == AllDone => glob = "limited"
+
+SchedView == <<text, lexers, lexerOf, pc, seen, result, glob, saved>>
 =============================================================================
